@@ -1,2 +1,4 @@
 import PyOak.Props.C06
 import PyOak.Props.C06Xpath
+import PyOak.Props.C06Total
+import PyOak.Props.C06Follow
